@@ -10,7 +10,7 @@ import (
 func main() {
 	exp, _ := g9cl.LoadExports(os.Args[1])
 	b, _ := os.ReadFile(os.Args[2])
-	r := g9cl.Compile(exp, []g9cl.File{{Name: "a.xgo", Src: string(b)}}, g9cl.Options{NoFileLine: true})
+	r := g9cl.Compile(exp, []g9cl.File{{Name: "a.xgo", Src: string(b)}}, g9cl.Options{NoFileLine: len(os.Args) > 3})
 	fmt.Println("PARSE:", r.ParseErr, "ERRS:", r.Errs, "PANIC:", r.Panic)
 	fmt.Println(r.Go)
 }
